@@ -1,30 +1,19 @@
 import SockModel.Drive.Common
 import SockModel.Model.Uri
 import SockModel.Model.Addr
+import SockModel.Spec.Uri
 /-! Driver for C11 and C12: validates `scen/address_parse.cpp` transcripts against `Model/Uri.lean`.
 
 * correspondence (both properties): outcome class and the `(node, service, flags)` handed to
   `getaddrinfo` equal the model's `parseUri` / `parseHostServ`; the pre-fix regex dissection
   (differential oracle, inputs ≤ 2000 bytes) equals the model's `dissectRaw`.
-* C11 on observations only: every construction ends in a value or an exception derived from
-  `std::exception`; no crash, signal, hang, foreign exception.
-* C12 on observations only: a service that reaches `getaddrinfo` and that `strtoul` reads
-  completely is ≤ 65535 and equals `Port()`; `Service()` is the decimal text of `Port()`;
-  `to_string` is `host:serv` / `[host]:serv` and parses back to an equal Address; all spellings
-  of one literal endpoint succeed, report the ground-truth host / port / family and are equal.
+* the properties themselves are NOT here: every op line with its observation lines is parsed into one
+  typed `Uri.Obs` (`toOutcome`, `toGai`, `litBegin`, `litEnd`, `abort`) and handed to `Uri.specStep`
+  (`Spec/Uri.lean`; mode `.totality` = C11, `.fidelity` = C12).  A line that cannot be typed (bad hex,
+  bad numeral, unknown line) is a `corr` verdict of the driver.
 -/
 namespace SockModel.Drive.Uri
 open SockModel SockModel.Drive SockModel.Uri
-
-def fnv1a (b : Bytes) : UInt64 :=
-  b.foldl (fun h c => (h ^^^ c.toUInt64) * 1099511628211) 14695981039346656037
-
-def hex16 (v : UInt64) : String :=
-  String.ofList ((List.range 16).map fun i => hexDigit ((v >>> (UInt64.ofNat (60 - 4 * i))).toNat % 16))
-
-/-- the harness's encoding of a byte string: hex up to 65536 bytes, else length and FNV-1a hash -/
-def enc (b : Bytes) : String :=
-  if b.length ≤ 65536 then hexEncode b else s!"#{b.length}:{hex16 (fnv1a b)}"
 
 def kv (ws : List String) (k : String) : Option String :=
   ws.findSome? fun w => match w.splitOn "=" with
@@ -38,86 +27,60 @@ def repeatUnit (unit : Bytes) (n : Nat) : Bytes := Id.run do
     acc := r ++ acc
   return acc.reverse
 
-inductive Input where
-  | uri (b : Bytes)
-  | pair (h s : Bytes)
-  | big (what : String)      -- too large for the model: property checks only
-
-structure Obs where
+/-- the observation lines of one construction as words (correspondence, tags) -/
+structure RawObs where
   gai : Option (String × String × Nat) := none     -- node enc, serv enc, flags
   legacy : Option (Option (String × String × Bool)) := none
   outcome : List String := []
 
 structure St where
-  prop : Nat
-  lit : Option (Bytes × Nat × Bool) := none
+  mode : Mode
+  spec : SpecSt := {}
   tags : List String := []
   corr : Option String := none
 
 def St.note (s : St) (msg : String) : St := if s.corr.isSome then s else { s with corr := some msg }
 
-def stdClasses : List String := ["invalid_argument", "out_of_range", "logic_error", "system_error", "runtime_error", "other"]
+def AI_NUMERICSERV : Nat := 1024
 
-def describe : Input → String
-  | .uri b => s!"uri {enc b}"
-  | .pair h sv => s!"pair {enc h} {enc sv}"
-  | .big w => w
+def toExnClass : String → ExnClass
+  | "invalid_argument" => .invalidArgument
+  | "out_of_range" => .outOfRange
+  | "logic_error" => .logicError
+  | "system_error" => .systemError
+  | "runtime_error" => .runtimeError
+  | "other" => .other
+  | t => .foreign t
 
-/-- C11 / common: the outcome is a value or a std::exception -/
-def specOutcome (inp : Input) (o : Obs) : Except String Unit :=
-  match o.outcome with
-  | "ok" :: _ => pure ()
-  | ["throw", cls] =>
-    if stdClasses.contains cls then pure ()
-    else throw s!"{describe inp}: exception not derived from std::exception"
-  | "accessorthrow" :: _ => throw s!"{describe inp}: accessors of the constructed Address throw"
-  | "died" :: w => throw s!"{describe inp}: process died during construction ({" ".intercalate w})"
-  | "crash" :: w => throw s!"{describe inp}: crash ({" ".intercalate w})"
-  | "hang" :: w => throw s!"{describe inp}: hang ({" ".intercalate w})"
-  | [] => throw s!"{describe inp}: no outcome reported"
-  | w => throw s!"{describe inp}: unexpected outcome {" ".intercalate w}"
+def toReparse : String → Reparse
+  | "eq" => .eq
+  | "ne" => .ne
+  | "throw" => .threw
+  | t => .other t
 
-/-- C12 on the observations of one construction -/
-def specFidelity (s : St) (inp : Input) (o : Obs) : Except String Unit := do
-  let reads : Option (Bool × Nat) := match o.gai with
-    | some (_, servEnc, _) => (hexDecode servEnc) >>= numericReads
-    | none => none
-  let numeric : Option Nat := match o.gai with
-    | some (_, servEnc, _) => (hexDecode servEnc) >>= strtoulReads
-    | none => none
-  match reads, numeric with
-  | some (neg, m), some v =>
-    if m > 65535 ∨ (neg ∧ m ≠ 0) then
-      throw s!"{describe inp}: numeric service {if neg then "-" else ""}{m} reached getaddrinfo (would be wrapped to port {v % 65536})"
-  | _, _ => pure ()
-  match o.outcome with
+/-- the outcome line as a typed `Outcome` -/
+def toOutcome : List String → Outcome
   | "ok" :: rest =>
     match (kv rest "host") >>= hexDecode, (kv rest "serv") >>= hexDecode, (kv rest "port") >>= String.toNat?,
           kv rest "v6", (kv rest "str") >>= hexDecode, kv rest "reparse" with
     | some host, some serv, some port, some v6, some str, some re =>
-      let v6 := v6 == "1"
-      match numeric with
-      | some v => if port ≠ v then throw s!"{describe inp}: Port() is {port} but the numeric service was {v}"
-      | none => pure ()
-      if serv ≠ Decimal.render port then throw s!"{describe inp}: Service() is not the decimal text of Port() {port}"
-      if str ≠ Addr.toString v6 host serv then throw s!"{describe inp}: to_string is not host:port / [host]:port"
-      if re ≠ "eq" then throw s!"{describe inp}: to_string() does not parse back to an equal Address ({re})"
-      match s.lit with
-      | some (h, p, l6) =>
-        if host ≠ h then throw s!"{describe inp}: Host() {hexEncode host} is not the canonical text {hexEncode h}"
-        if port ≠ p then throw s!"{describe inp}: Port() is {port}, expected {p}"
-        if v6 ≠ l6 then throw s!"{describe inp}: IsV6() is wrong"
-      | none => pure ()
-    | _, _, _, _, _, _ => throw s!"{describe inp}: unparsable ok observation"
-  | _ =>
-    match s.lit with
-    | some _ => throw s!"{describe inp}: a documented spelling of a literal endpoint was rejected ({" ".intercalate o.outcome})"
-    | none => pure ()
+      .ok (some { host, serv, port, v6 := v6 == "1", str, reparse := toReparse re })
+    | _, _, _, _, _, _ => .ok none
+  | ["throw", cls] => .threw (toExnClass cls)
+  | "accessorthrow" :: w => .accessorThrow (" ".intercalate w)
+  | "died" :: w => .died (" ".intercalate w)
+  | "crash" :: w => .crash (" ".intercalate w)
+  | "hang" :: w => .hang (" ".intercalate w)
+  | [] => .missing
+  | w => .other (" ".intercalate w)
 
-def AI_NUMERICSERV : Nat := 1024
+def toGai : Option (String × String × Nat) → Option GaiObs
+  | none => none
+  | some (n, sv, fl) => some { node := hexDecode n, serv := hexDecode sv, numericServ := fl / AI_NUMERICSERV % 2 == 1 }
+
 
 /-- correspondence with the model -/
-def corrCheck (inp : Input) (o : Obs) : Option String :=
+def corrCheck (inp : Input) (o : RawObs) : Option String :=
   let expectGai (c : GaiCall) : Option String :=
     match o.gai with
     | none => some s!"{describe inp}: model reaches getaddrinfo({enc c.node}, {enc c.serv}), impl did not ({" ".intercalate o.outcome})"
@@ -165,7 +128,7 @@ def inputTags (inp : Input) : List String :=
   (if bytes.contains 0 then ["nul"] else []) ++ (if bytes.any (· ≥ 0x80) then ["hi"] else []) ++
   (if bytes.any isLineBreak then ["linebreak"] else []) ++ (if bytes.length > 2000 then ["long"] else [])
 
-def obsTags (o : Obs) : List String :=
+def obsTags (o : RawObs) : List String :=
   (match o.outcome with
    | "ok" :: _ => ["ok"]
    | ["throw", c] => [s!"throw.{c}"]
@@ -179,7 +142,7 @@ def obsTags (o : Obs) : List String :=
    | none => [])
 
 /-- read the observation lines that follow an op -/
-def takeObs : List String → Obs → Except String (Obs × List String)
+def takeObs : List String → RawObs → Except String (RawObs × List String)
   | [], o => pure (o, [])
   | l :: rest, o =>
     match obs? l with
@@ -194,14 +157,10 @@ def takeObs : List String → Obs → Except String (Obs × List String)
     | some ("litend" :: _) => pure (o, l :: rest)
     | some w => takeObs rest { o with outcome := w }
 
-def finish (s : St) (inp : Input) (o : Obs) (kind : String) : Except (String × String) St := do
-  match specOutcome inp o with
+def finish (s : St) (inp : Input) (o : RawObs) (kind : String) : Except (String × String) St := do
+  match specStep s.mode s.spec (.construct inp (toGai o.gai) (toOutcome o.outcome)) with
   | .error m => throw ("spec", m)
   | .ok _ => pure ()
-  if s.prop = 12 then
-    match specFidelity s inp o with
-    | .error m => throw ("spec", m)
-    | .ok _ => pure ()
   let s := match corrCheck inp o with
     | some m => s.note m
     | none => s
@@ -215,6 +174,10 @@ partial def go (s : St) : List String → Verdict
   | l :: rest =>
     let w := words l
     let fail (k m : String) : Verdict := { fail := some (k, m), tags := s.tags }
+    let spec (o : Uri.Obs) : Verdict :=
+      match specStep s.mode s.spec o with
+      | .error m => fail "spec" m
+      | .ok sp => go { s with spec := sp } rest
     let construct (inp : Input) (kind : String) : Verdict :=
       match takeObs rest {} with
       | .error m => fail "corr" m
@@ -251,17 +214,15 @@ partial def go (s : St) : List String → Verdict
     | "name" :: _ => go { s with tags := "op.name" :: s.tags } rest
     | "->" :: "litbegin" :: kvs =>
       match (kv kvs "host") >>= hexDecode, (kv kvs "port") >>= String.toNat?, kv kvs "v6" with
-      | some h, some p, some v6 => go { s with lit := some (h, p, v6 == "1") } rest
+      | some h, some p, some v6 => spec (.litBegin h p (v6 == "1"))
       | _, _, _ => fail "corr" s!"bad line {l}"
     | "->" :: "litend" :: kvs =>
-      if s.prop = 12 ∧ (kv kvs "allok" ≠ some "1" ∨ kv kvs "alleq" ≠ some "1") then
-        fail "spec" (s!"spellings of one literal endpoint do not all yield equal Addresses ({" ".intercalate kvs})")
-      else go { s with lit := none } rest
-    | "->" :: "crash" :: x => fail "spec" ("crash: " ++ " ".intercalate x)
-    | "->" :: "hang" :: x => fail "spec" ("hang: " ++ " ".intercalate x)
+      spec (.litEnd (kv kvs "allok" == some "1") (kv kvs "alleq" == some "1") (" ".intercalate kvs))
+    | "->" :: "crash" :: x => spec (.abort ("crash: " ++ " ".intercalate x))
+    | "->" :: "hang" :: x => spec (.abort ("hang: " ++ " ".intercalate x))
     | _ => fail "corr" s!"unknown line {l}"
 
-def runCase11 (body : List String) : Verdict := go { prop := 11 } body
-def runCase12 (body : List String) : Verdict := go { prop := 12 } body
+def runCase11 (body : List String) : Verdict := go { mode := .totality } body
+def runCase12 (body : List String) : Verdict := go { mode := .fidelity } body
 
 end SockModel.Drive.Uri
